@@ -112,10 +112,12 @@ def fortran_order(outdir, files):
     return order
 
 
-def compile_dir(outdir, language, incdirs, skip_numpy=True):
-    """returns list of results: dict(file, tool, status in ok|fail|skip, why, err, log)"""
+def compile_dir(outdir, language, incdirs, skip_numpy=True, defines=()):
+    """returns list of results: dict(file, tool, status in ok|fail|skip, why, err, log); with `defines` the tool names
+    carry the suffix +D (second pass with the cpp_if macros of the description defined)"""
     res = []
-    inc = ["-I", outdir]
+    inc = ["-I", outdir] + ["-D%s" % m for m in defines]
+    sfx = "+D" if defines else ""
     for d in incdirs:
         inc += ["-I", d]
     files = sorted(os.listdir(outdir))
@@ -126,6 +128,7 @@ def compile_dir(outdir, language, incdirs, skip_numpy=True):
             kinds.setdefault(k, []).append(f)
 
     def add(f, tool, rc, out, why=""):
+        tool = tool + sfx
         if rc == 0:
             res.append({"file": f, "tool": tool, "status": "ok"})
             return
@@ -133,7 +136,7 @@ def compile_dir(outdir, language, incdirs, skip_numpy=True):
         if m and not os.path.exists(os.path.join(outdir, os.path.basename(m.group(1)))):
             res.append({"file": f, "tool": tool, "status": "skip", "why": "header %s not available" % m.group(1).strip()})
             return
-        err = (fortran_error(out) if tool == "gfortran" else None) or norm_err(out, outdir)
+        err = (fortran_error(out) if tool.startswith("gfortran") else None) or norm_err(out, outdir)
         res.append({"file": f, "tool": tool, "status": "fail", "err": err, "log": out[-1500:]})
 
     for f in kinds.get("c", []):
@@ -256,11 +259,13 @@ def job(spec):
             y = shroudrun.write_yaml(d, spec.get("yaml_name", "lib.yaml"), spec["yaml_text"])
         else:
             y = spec["yaml"]
-        if spec.get("header"):
+        hdrs = list(spec.get("headers") or []) + ([spec["header"]] if spec.get("header") else [])
+        if hdrs:
             hd = os.path.join(d, "inc")
             os.makedirs(hd)
-            with open(os.path.join(hd, spec["header"][0]), "w") as f:
-                f.write(spec["header"][1])
+            for hn, ht in hdrs:
+                with open(os.path.join(hd, hn), "w") as f:
+                    f.write(ht)
             incdirs.insert(0, hd)
         cfg, exc, out = shroudrun.run_inproc([y], outdir, options=spec.get("options", []), language=spec.get("language"),
                                              write_version=spec.get("write_version", False))
@@ -270,6 +275,8 @@ def job(spec):
             return r
         r["files"] = sorted(os.listdir(outdir))
         r["results"] = compile_dir(outdir, spec.get("language"), incdirs)
+        if spec.get("defines"):
+            r["results"] += compile_dir(outdir, spec.get("language"), incdirs, defines=spec["defines"])
         r["dups"] = duplicate_includes(outdir)
         r["brackets"] = bracket_balance(outdir)
         return r
